@@ -120,3 +120,30 @@ class RecState(AbsVal):
         if name == "copy":
             return Builtin(name, lambda it, a, k: self)
         raise AnalysisError(f"state.{name}")
+
+
+def backward_slice(fn_node, names, inputs, body=None):
+    """Statements of `body` (default: the top-level statements of fn_node), in order, that define `names`,
+    transitively, stopping at `inputs` (whose own definitions are not followed).  Returns (statements, free names that
+    are neither defined nor inputs)."""
+    import ast
+
+    needed, chosen = set(names) - set(inputs), []
+    for st in reversed(fn_node.body if body is None else body):
+        tg = set()
+        if isinstance(st, ast.Assign):
+            for t in st.targets:
+                tg |= {n.id for n in ast.walk(t) if isinstance(n, ast.Name)}
+        elif isinstance(st, ast.AnnAssign) and isinstance(st.target, ast.Name) and st.value is not None:
+            tg = {st.target.id}
+        if tg & needed:
+            chosen.append(st)
+            needed -= tg
+            needed |= {n.id for n in ast.walk(st.value) if isinstance(n, ast.Name) and isinstance(n.ctx, ast.Load)} - set(inputs)
+    chosen.reverse()
+    comp_vars = set()
+    for st in chosen:
+        for n in ast.walk(st):
+            if isinstance(n, ast.comprehension):
+                comp_vars |= {m.id for m in ast.walk(n.target) if isinstance(m, ast.Name)}
+    return chosen, needed - comp_vars
